@@ -31,10 +31,17 @@ def generate(rng, tier):
         out.append(sc.gen_static(rng, n_leaves=rng.randint(1, 5), nest_depth=0, faults=False, tocks="any", limit_p=0.2))
     for _ in range(200 * n):
         out.append(sc.gen_static(rng, n_leaves=rng.randint(2, 5), nest_depth=2, faults=False, tocks="zero", limit_p=0.2))
+    # the broad stream (dynamic programs, faults, ado, several runs): decided by the correspondence with the
+    # model plus the once-per-cycle rule
+    for p in sc.gen_broad(rng, 200 * n):
+        p["broad"] = True
+        out.append(p)
     return out
 
 
 def oracle(case, obs):
+    if case.get("broad"):
+        return sc.broad_oracle(case, obs)
     if obs["raised"] != "none":
         return f"do() raised: {obs['raised']}"
     tr = obs["trace"]
